@@ -43,7 +43,11 @@ def _table(rng, n, ncol, csv_only=False, json_only=None, ts_ok=False):
     """Plain-Python table: list of (name, kind, values) over int / digit-str / word-str / float / iso-date-str."""
     cols = []
     for name in rng.sample(NAMES, ncol):
-        kind = rng.choice(["int", "float", "word", "digits", "iso"] + (["intz"] if csv_only else []) + (["nested", "nested"] if json_only else []) + (["mixednum"] if json_only == "lod" else []) + (["ts", "ts"] if ts_ok else []) + (["tsns"] if ts_ok and csv_only else []))
+        kind = rng.choice(["int", "float", "word", "digits", "iso"] + (["intz"] if csv_only else []) + (["nested", "nested"] if json_only else []) + (["mixednum"] if json_only == "lod" else []) + (["ts", "ts"] if ts_ok else []) + (["tsns"] if ts_ok and csv_only else []) + (["floatnan"] if ts_ok else []))
+        if kind == "floatnan":
+            # floats with NaN stored as a VALUE (not as the format's null): "NAN" in CSV text, NaN in a Parquet file written from NumPy arrays
+            cols.append((name, kind, [None if rng.random() < 0.35 else rng.choice([0.5, 1.25, -3.5, 2.0]) for _ in range(n)]))
+            continue
         if kind == "tsns":
             # timestamps written with true nanosecond digits (text, CSV only): such a column is parsed in nanoseconds, whatever its neighbours need
             cols.append((name, kind, [f"2020-01-0{rng.randint(1, 9)}T10:20:30.{rng.choice(['123456789', '000000001', '5', '250000'])}" for _ in range(n)]))
@@ -103,6 +107,7 @@ def generate(rng, tier):
                 elif kind == "float" and case["reader"] in ("df-json", "geojson", "df-csv", "df-parquet"): m[name] = "float"
                 elif kind == "word" and case["reader"] in ("df-json", "geojson", "df-csv"): m[name] = "str"
                 elif kind == "mixednum": m[name] = "str"
+                elif kind == "floatnan": m[name] = rng.choice(["str", "object", "float"])
                 elif kind == "ts": m[name] = rng.choice(["datetime64[D]", "datetime64[ms]", "datetime64[h]"])
         if case["ragged"] and case["reader"] in ("df-json", "geojson"):
             # a column that also holds missing values (a key absent from some records): only the casts that cannot be ambiguous --
@@ -179,7 +184,7 @@ def generate(rng, tier):
         case["kw"] = kw
     return case
 
-TYPES = {"float": float, "str": str, "int": int}
+TYPES = {"float": float, "str": str, "int": int, "object": object}
 
 def _np_values(kind, vals):
     return np.array(vals) if kind in ("int", "float") else np.array(vals, dtype=object)
@@ -198,7 +203,8 @@ def _write(case, path, fmt, enc="utf-8", sep=",", header=True):
             for k in list(r):
                 if rr.random() < 0.3 and sum(1 for q in rows if k in q) > 1:
                     del r[k]
-    lib = case["writer"] == "library" and not any(c[1] in ("intz", "tsns") for c in cols)
+    lib = case["writer"] == "library" and not any(c[1] in ("intz", "tsns", "floatnan") for c in cols)
+    fnan = {c[0] for c in cols if c[1] == "floatnan"}
     if fmt == "csv":
         if lib and enc == "utf-8":
             di.DataFrame(**{c[0]: list(c[2]) for c in cols}).write_csv(path, sep=sep, header=header)
@@ -206,7 +212,7 @@ def _write(case, path, fmt, enc="utf-8", sep=",", header=True):
             with open(path, "w", encoding=enc, newline="") as f:
                 w = csv.writer(f, delimiter=sep, quoting=csv.QUOTE_MINIMAL, lineterminator="\n")
                 if header: w.writerow(names)
-                for r in rows: w.writerow([r[k] for k in names])
+                for r in rows: w.writerow(["NAN" if k in fnan and r[k] is None else r[k] for k in names])
     elif fmt == "json":
         if lib and enc == "utf-8":
             di.ListOfDicts(rows).write_json(path)
@@ -227,7 +233,7 @@ def _write(case, path, fmt, enc="utf-8", sep=",", header=True):
             pdf.to_parquet(path)
         else:
             import pyarrow as pa, pyarrow.parquet as pq
-            pq.write_table(pa.table({c[0]: list(c[2]) for c in cols}), path)
+            pq.write_table(pa.table({c[0]: (pa.array(np.array([np.nan if v is None else v for v in c[2]], dtype=float)) if c[0] in fnan else list(c[2])) for c in cols}), path)
     elif fmt == "npz":
         arrs = {c[0]: (np.array(c[2], dtype=object) if case.get("npz_object") and c[1] not in ("int", "float") else np.array(c[2])) for c in cols}
         if lib and not case.get("npz_object"):
@@ -353,6 +359,14 @@ def execute(case):
                 colv = dict.__getitem__(full, k)
                 if k in m:
                     t = TYPES.get(m[k], m[k])
+                    base = _cells(colv)
+                    if any(c == canon.NA for c in base) and t in (str, object):
+                        # casting leaves a missing value missing (in the new type's own representation)
+                        keepi = [i for i, c in enumerate(base) if c != canon.NA]
+                        cast = _cells(np.asarray(colv)[keepi].astype(di.dtypes.string if t is str else t))
+                        it = iter(cast)
+                        exp[k] = [canon.NA if c == canon.NA else next(it) for c in base]
+                        continue
                     colv = np.asarray(colv).astype(di.dtypes.string if t is str else t)
                 exp[k] = _cells(colv)
             gotm = {k: _cells(v) for k, v in dict.items(got)}
